@@ -18,6 +18,9 @@
 (*     (a write that returned an error leaves the listing as it was, an    *)
 (*     accepted one changes it the way its kind says); total_size is the   *)
 (*     size of that set.  Whether a write is accepted is not judged here.  *)
+(*   - "sched" lines are walks whose page size changes from call to call   *)
+(*     (t.sizes, all non-negative): the same clauses, page i against the   *)
+(*     size call i asked for.                                              *)
 (* Not asserted (the text does not settle them): the exact page            *)
 (* boundaries (short or empty pages are allowed, so equality with the      *)
 (* reference Walk is reported as information only); which status code an   *)
@@ -71,10 +74,10 @@ Fails(t) ==
                    THEN If(t.first # "OK", IF t.size < 0 THEN "negative-size-accepted" ELSE "malformed-token-accepted")
                    ELSE {})
              \cup (IF t.k = "hist" THEN HistFails(t) ELSE {})
-             \cup (IF t.k \in {"walk", "hist"} /\ ~MustFail(t)
+             \cup (IF t.k \in {"walk", "hist", "sched"} /\ ~MustFail(t)
                    THEN If(t.err = "OK", "error-on-valid-request")
                         \cup (IF t.err = "OK" /\ t.ended THEN ItemFails(t) ELSE {})
-                        \cup If(\A i \in 1..Len(t.lens) : Allowed(t.size, t.lens[i]), "page-larger-than-requested")
+                        \cup If(\A i \in 1..Len(t.lens) : Allowed(SizeOfCall(t.sizes, i), t.lens[i]), "page-larger-than-requested")
                         \cup If(\A i \in 1..Len(t.totals) : t.totals[i] = t.n, "total-size")
                    ELSE {}))
 
